@@ -15,7 +15,7 @@ labelled as such in the evidence:
 Preconditions that the code does not establish (mass number 0.0 for grains, elements without atomic species)
 are exactly the two known findings of C16."""
 from __future__ import annotations
-import time
+import time, re
 import z3
 from pyvc.context import VerifContext
 from pyvc.sym import SInt, SReal, SBool, SStr, SObj, Hole, Unsupported
@@ -249,6 +249,65 @@ def _register():
 
 
 _register()
+
+
+def _preprocess(text, defined):
+    """#ifdef / #ifndef / #else / #endif with a known macro set (no #if expressions: fails closed)"""
+    out, stack = [], []
+    for line in text.splitlines():
+        t = line.strip()
+        m = re.match(r"#\s*(ifdef|ifndef)\s+(\w+)", t)
+        if m:
+            stack.append((m.group(2) in defined) == (m.group(1) == "ifdef"))
+            continue
+        if re.match(r"#\s*else\b", t):
+            stack[-1] = not stack[-1]
+            continue
+        if re.match(r"#\s*endif\b", t):
+            stack.pop()
+            continue
+        if t.startswith("#"):
+            raise ValueError(f"preprocessor line outside the fragment: {t}")
+        if all(stack):
+            out.append(line)
+    return "\n".join(out)
+
+
+def hnuclei_items(tier):
+    """GetHNuclei of the rendered physics source returns the total of element H - GetElementAbund(y, IDX_ELEM_H) - and nothing
+    else, also when the network has deuterium as an element of its own (the reference ratios and the matrix are both normalised by
+    this value; the reference side divides by ref[IDX_ELEM_H]).  The body is taken from the rendered file, preprocessed with the
+    macros the rendered header defines, and executed by the mini C front end with GetElementAbund uninterpreted."""
+    from .native_ode import render, mk_reaction, fresh_species_state, parse_macros, function_body, strip_comments
+    from naunet.network import Network
+    from pyvc import cmini, smt
+    import time
+    items = []
+    fresh_species_state()
+    net = Network([mk_reaction(["H", "D"], ["HD"]), mk_reaction(["HD", "H+"], ["H2", "D+"]), mk_reaction(["D+", "e-"], ["D"]), mk_reaction(["H", "H"], ["H2"]), mk_reaction(["H+", "e-"], ["H"])])
+    for backend in [("cvode", "dense", "cpu"), ("odeint", "rosenbrock4", "cpu")]:
+        pre = f"physics/{backend[0]}/GetHNuclei"
+        t0 = time.time()
+        files = render(net, *backend, jac_pattern=False)
+        mac = parse_macros(files["include/naunet_macros.h"])
+        has = "IDX_ELEM_H" in mac and "IDX_ELEM_D" in mac
+        items.append({"name": f"{pre}/network-has-H-and-D-as-elements", "status": "proved" if has else "unknown", "backend": "render", "seconds": 0.0, "detail": f"{sorted(k for k in mac if k.startswith('IDX_ELEM_'))}"})
+        try:
+            raw = function_body(strip_comments(files["src/naunet_physics.cpp"]), r"double\s+GetHNuclei\s*\(\s*double\s*\*\s*y\s*\)\s*\{")
+            body = _preprocess(raw, set(mac))
+            stmts = cmini.parse_body(cmini.strip(body))
+            y = z3.Const("y", z3.ArraySort(z3.IntSort(), z3.RealSort()))
+            GEA = z3.Function("GetElementAbund", z3.ArraySort(z3.IntSort(), z3.RealSort()), z3.IntSort(), z3.RealSort())
+            consts = {k: z3.Int(k) for k in mac if k.startswith("IDX_ELEM_")}
+            ex = cmini.Exec(consts, {"GetElementAbund": lambda ex_, st_, args: GEA(st_.a[args[0][1]], ex_.ev(args[1], st_))}, max_unroll=0)
+            st = ex.run(stmts, cmini.State({}, {"y": y}))
+            hyp = [z3.Distinct(*consts.values())] if len(consts) > 1 else []
+            status, be, secs, model = smt.check_valid(hyp, z3.And(st.returned, st.retval == GEA(y, consts["IDX_ELEM_H"])), timeout_ms=10000)
+            items.append({"name": f"{pre}/returns-the-total-of-element-H", "status": status, "backend": f"cmini+{be}", "seconds": time.time() - t0,
+                          "detail": f"retval = {z3.simplify(st.retval)}" + (f"; countermodel {str(model)[:200]}" if model is not None else "")})
+        except Exception as e:
+            items.append({"name": f"{pre}/returns-the-total-of-element-H", "status": "unknown", "backend": "cmini", "seconds": time.time() - t0, "detail": f"outside the fragment: {type(e).__name__}: {e}"})
+    return items
 
 
 def driver_items(tier):
